@@ -195,6 +195,9 @@ def ref_shares(fdef, frame):
         ctx = "precur" if it["t"] == "go" else it["ctx"]
         lst = objs[ctx]
         # Suspender / marker acts are never generated, so the positions of the AST items and of the act lists agree
+        if seen[ctx] >= len(lst):          # the act list is shorter than the script says: reported by the oracle
+            out.append((i, 0, {"p": "?", "rel": "framer"}, None))
+            continue
         act = lst[seen[ctx]]
         seen[ctx] += 1
         if it["t"] == "go":
@@ -611,8 +614,32 @@ def gen_prog(rng):
         frames, first = gen_body(rng, m, "abc"[i], moots[i + 1:], False, shared_reads)
         explicit = frames[0]["name"] != first or rng.random() < 0.3
         framers.append({"name": m, "sched": "moot", "first": first if explicit else None, "via": rng.choice(VIAS_FRAMER), "frames": frames})
+    if rng.random() < 0.3:
+        raze_scenario(rng, framers, moots)
     rng.shuffle(framers) if rng.random() < 0.2 else None
     return {"ticks": rng.choice([4, 6, 8, 10]), "framers": framers, "shared_reads": shared_reads}
+
+
+def raze_scenario(rng, framers, moots):
+    """directed part: a host frame A rears into its sibling B and goes there; B razes while its clones are entered
+    (some of which have already said `done`)"""
+    host = rng.choice([f for f in framers if f["sched"] == "active"])
+    kids = [f for f in host["frames"] if f["over"]]
+    if len(kids) < 2:
+        return
+    a, b = rng.sample(kids, 2)
+    m = rng.choice(moots)
+    for _ in range(rng.choice([1, 1, 2])):
+        a["items"].append(act_item("enter", {"k": "rear", "of": m, "frame": b["name"]}))
+    a["items"].insert(3, {"t": "go", "far": b["name"], "needs": [{"k": "re", "op": ">=", "v": rng.choice([1, 1, 2])}]})
+    b["items"].append(act_item(rng.choice(["recur", "recur", "precur", "renter"]),
+                               {"k": "raze", "who": rng.choice(["all", "first", "last"]), "frame": None}))
+    if rng.random() < 0.5:
+        b["items"].insert(3, {"t": "go", "far": "me", "needs": [{"k": "re", "op": "==", "v": 2}]})
+    mdef = [f for f in framers if f["name"] == m][0]
+    first = [f for f in mdef["frames"] if f["name"] == (mdef["first"] or mdef["frames"][0]["name"])][0]
+    if rng.random() < 0.6 and not any(it["t"] == "act" and it["a"]["k"] == "done" for it in first["items"]):
+        first["items"].append(act_item(rng.choice(["enter", "recur"]), {"k": "done"}))
 
 
 def malform(rng, prog):
@@ -768,7 +795,7 @@ class CHECK(core.Check):
     PROPERTY = "C12"
     LEAN_MODULES = ["IofloModel.Props.C12"]
     ENGINE = "clones"
-    N_QUICK = 60
+    N_QUICK = 80
     N_THOROUGH = 1200
     N_SEARCH = 60
     RULE = ("generated programs: 1-2 active hosts (a top frame with 2-4 child frames, looping transitions on recurred / "
@@ -785,18 +812,49 @@ class CHECK(core.Check):
                "(driver engine 'clones')",
                "clause text -> relative path (Builder.parseIndirect) is taken from C13; tokenizer C16; literals C17",
                "CPython copy.deepcopy, odict order, str.join/split"]
-    PARTIAL = ["C12_clone_runs_like_original_partial: behavioural equality is proved for the entry points of one clone under "
-               "a store relation; see Props/C12.lean for the exact hypotheses",
-               "the model keeps integer `value` fields only; CloneError branches of Frame.clone / Act.clone for already "
+    PARTIAL = ["C12_clone_runs_like_original_partial / C12_leaf_refines_partial / C12_leaf_refines_checkStart_partial: the "
+               "behavioural clause is proved for framer objects WITHOUT auxiliaries below them whose script has no rear / "
+               "raze / aux-done need (decidable: Frame.leafy) and whose resolution map is injective (true of framer-, frame- "
+               "and actor-relative references: C12_prefix_map_resolves); for such an object every entry point enterAll / "
+               "recur / segue / exitAll / checkStart is shown equal to a name-free stand-alone interpreter, so a clone and "
+               "its original (or two clones) started in the same situation stay in the same situation and emit the same "
+               "events, whatever the rest of the house does (C12_situation_stable). NOT proved: the same for clones that "
+               "carry clones below them, rear or raze (nested clones, rear / raze at run time are tied to the code by the "
+               "correspondence and by the oracles O1 / O4 only); that Act.resolvePath on the TEXT of a reference is the "
+               "prefix map (the segment-level statement is C12_relative_path_has_own_name / _is_substituted)",
+               "raze: proved are the selection (C12_raze_selects_only_razeable_insular, C12_raze_all_first_last) and that the "
+               "pruned object's registration is removed (C12_pruned_name_freed, C12_unregister_frees_name, "
+               "C12_freed_name_reusable); NOT proved as theorems: that pruning an auxiliary leaves the other entries of the "
+               "razing frame's aux list alone and that a razed object is in no other aux list (needs an ownership invariant "
+               "over whole runs; checked on every generated run by the correspondence — X lines — and by oracle O3)",
+               "the model keeps integer `value` fields only; the CloneError branches of Frame.clone / Act.clone for already "
                "resolved links are folded into one test (unreachable: only moots are cloned and moots are never resolved); "
-               "conditional auxiliaries, beacts, bids, slaves and `under` are not in the modelled subset (clones cannot be "
-               "conditional auxiliaries)",
+               "conditional auxiliaries, beacts, bids, slaves and `under` are not in the modelled subset (a clone cannot be "
+               "a conditional auxiliary)",
                "D5 (a moot that clones itself never finishes building) belongs to C14 and is not generated; in the model it "
-               "is Err.fuel"]
-    TECHNIQUE = "Lean 4 theorems on a transcribed clone / rear / raze model + differential and metamorphic correspondence"
-    LEVEL_TEXT = ("see Props/C12.lean")
-    LEVEL_NOTE = ("Trusted: Lean kernel; axioms propext, Classical.choice, Quot.sound; hand transcription validated only by the "
-                  "correspondence runs on /repo + fixes D12a, D12b.")
+               "is Err.fuel",
+               "observation: the store is never cleaned, so a clone reared under the name of a razed one starts with the "
+               "relative shares the razed one left (same inputs => same run still holds; oracle O4 skips such clones)"]
+    TECHNIQUE = "Lean 4 theorems on a transcribed clone / rear / raze model (refinement to a name-free interpreter) + differential and metamorphic correspondence"
+    LEVEL_TEXT = ("Proved for all inputs on the model: relative store data - C12_relative_path_has_own_name, "
+                  "C12_relative_paths_disjoint (two framer objects with different names never resolve framer-/frame-/actor-"
+                  "relative references to one path, any contexts, inodes, references), C12_relative_path_is_substituted (the "
+                  "clone's path is the original's with the name segment substituted); what a clone is - "
+                  "C12_frame_clone_copies_script, C12_frame_clone_of_unresolved, C12_clone_copies_definition, "
+                  "C12_clone_fails_iff; names - C12_clone_registers_fresh_name, C12_clone_keeps_names_distinct, "
+                  "C12_new_tag_fresh (newMootTag / newAuxTag), C12_surname_of_clone / _of_original, "
+                  "C12_name_parts_injective; raze - C12_raze_selects_only_razeable_insular, C12_raze_all_first_last, "
+                  "C12_unregister_frees_name, C12_pruned_name_freed, C12_freed_name_reusable; behaviour (PARTIAL: framer "
+                  "objects without auxiliaries below them) - C12_leaf_refines_partial, C12_leaf_refines_checkStart_partial, "
+                  "C12_clone_runs_like_original_partial, C12_same_events, C12_situation_stable, C12_prefix_map_resolves. "
+                  "Tied to the code by building and running generated clone / rear / raze programs with the real Builder "
+                  "and Skedder and comparing every line with the Lean interpreter; the oracle rebuilds each program with a "
+                  "clone replaced by its original as an ordinary auxiliary and demands identical traces.")
+    LEVEL_NOTE = ("Trusted: Lean kernel; axioms propext, Classical.choice, Quot.sound; hand transcription of framing.py / "
+                  "acting.py / housing.py / building.py clone, rear, raze and framer-core code validated only by the "
+                  "correspondence runs on /repo + fixes D12a, D12b; clause text -> relative path taken from C13; CPython "
+                  "deepcopy and dict order. The behavioural theorem covers clones without auxiliaries below them; nested "
+                  "clones and run-time rear / raze are covered by correspondence and oracle only.")
 
     # ---- cases
     def generate(self, rng, n, tier):
@@ -975,12 +1033,32 @@ class CHECK(core.Check):
             if parent not in hosts or done >= 2:
                 continue
             b, d = life[u]
-            # another incarnation of the same name whose life touches this one makes attribution ambiguous: skip
-            if any(v != u and obs.info[v]["name"] == nm and life.get(v) and not (life[v][1] < b - 1 or life[v][0] > d + 1)
-                   for v in obs.info):
+            # the events of exactly this object and of the objects below it, by identity (side channel `who`)
+            X = obs.seen[u]
+
+            def below(fr):
+                n = 0
+                while fr is not None and n < 50:
+                    if fr is X:
+                        return True
+                    fr = fr.main.framer if getattr(fr, "main", None) is not None else None
+                    n += 1
+                return False
+            tagged = []
+            for t, (_, ls) in enumerate(split_ticks(lines)):
+                evs = [l for l in ls if l.startswith("E ")]
+                for l, who in zip(evs, obs.who[t] if t < len(obs.who) else []):
+                    tagged.append((t, who, l))
+            # an earlier object of the same name leaves its relative shares behind (the store keeps them): the later one
+            # does not start from the inputs of the reference run
+            if any((l.split(" ")[1] == nm or l.split(" ")[1].startswith(nm + "_")) and not below(who) and t <= d + 1
+                   for (t, who, l) in tagged):
                 continue
-            mine = [(t, rename_prefix(fr, nm, "Q"), f, c, tag) for (t, fr, f, c, tag) in ev
-                    if (fr == nm or fr.startswith(nm + "_")) and b <= t <= d + 1]
+            mine = []
+            for (t, who, l) in tagged:
+                if below(who):
+                    _, fr, f, c, tag = l.split(" ")
+                    mine.append((t, rename_prefix(fr, nm, "Q"), f, c, tag))
             if not mine:
                 continue
             mainframe = None
